@@ -276,7 +276,7 @@ class Seg:
                 sv = fr.statics[r]
                 if isinstance(sv, tuple) and sv and isinstance(sv[0], str) and sv[0] in ('eptrvar', 'efieldvar'):
                     return (sv[0][:-3], p.get(sv[1])) + tuple(sv[2:])
-                if isinstance(sv, tuple) and sv and sv[0] == 'slicevar':
+                if isinstance(sv, tuple) and sv and isinstance(sv[0], str) and sv[0] == 'slicevar':
                     # a slice header kept across a scheduling point: its length was saved, its elements
                     # are those of the field's backing array as it is now
                     origin = tuple(sv[2])
@@ -482,7 +482,7 @@ class Seg:
                     name = self.m.var(p.regname(f.fn, r) + '.id')
                     p.set(name, to_bv(val[1]))
                     f.statics[r] = (val[0] + 'var', name) + tuple(val[2:])
-                elif isinstance(val, tuple) and len(val) == 4 and val[0] == 'slice' and val[3] is not None:
+                elif isinstance(val, tuple) and len(val) == 4 and isinstance(val[0], str) and val[0] == 'slice' and val[3] is not None:
                     name = self.m.var(p.regname(f.fn, r) + '.len')
                     p.set(name, to_bv(val[2]))
                     f.statics[r] = ('slicevar', name, tuple(val[3]))
